@@ -470,6 +470,20 @@ struct BDoc<'a> {
     b: Vec<&'a str>,
 }
 
+/// serde buffers untagged (and flattened, internally tagged) types through `deserialize_any`: a `&str` inside
+/// can only be filled if the deserializer lends the text there as well.
+#[derive(Debug, Deserialize)]
+#[serde(untagged)]
+enum UB<'a> {
+    S(&'a str),
+    N(Vec<i64>),
+}
+#[derive(Debug, Deserialize)]
+struct UDoc<'a> {
+    #[serde(borrow)]
+    a: UB<'a>,
+}
+
 /// Mapping keys lent as `&str` (keys travel through the same look-ahead buffer as values).
 #[derive(Debug, Deserialize)]
 struct KDoc<'a> {
@@ -535,6 +549,20 @@ pub fn exec_borrow(c: &BorrowCase, st: &mut Stats) -> Vec<Viol> {
                 Err(e) => out.push(mk(
                     "borrow-refused-verbatim",
                     format!("a map of verbatim &str keys and values fails with {}", lab::err_info(&e).kind),
+                )),
+            }
+        }
+    }
+    // a verbatim scalar reached through serde's buffering (untagged enum): plain, single- and double-quoted
+    for t in ["a: abc\n", "a: two words\n", "a: 'abc'\n", "a: \"abc\"\n", "a: héllo\n"] {
+        let owned_text = String::from(t);
+        if let Ok(r) = guard(|| serde_saphyr::from_str::<UDoc>(&owned_text)) {
+            st.evals += 1;
+            match r {
+                Ok(UDoc { a: UB::S(x) }) if within(&owned_text, x) => {}
+                other => out.push(mk(
+                    "borrow-refused-verbatim",
+                    format!("{t:?} into an untagged enum holding &str: {:?}", other.map_err(|e| lab::err_info(&e).kind)),
                 )),
             }
         }
@@ -693,7 +721,12 @@ fn gen_borrow(rng: &mut Rng) -> BorrowCase {
     // each scalar: (yaml text, class)   class 0 = verbatim, 1 = transformed, 2 = block (unasserted)
     fn scalar(rng: &mut Rng, in_flow: bool) -> (String, u8) {
         let w = *rng.pick(SIMPLE_STR);
-        match rng.below(9) {
+        match rng.below(12) {
+            // tagged scalars: `!!str` makes anything a string (verbatim text: lendable), `!!binary` is
+            // decoded (transformed), a non-string tag is no string at all (owned and borrowed fail alike)
+            9 => ((*rng.pick(&["!!str null", "!!str ~", "!!str plain", "!!str 12", "! word"])).to_string(), 0),
+            10 => ("!!binary aGk=".to_string(), 1),
+            11 => ((*rng.pick(&["!!int 5", "!!bool true", "!!null x", "!!float 1.5"])).to_string(), 2),
             0 | 1 | 2 => (w.replace(':', "").replace('#', ""), 0),
             3 => (format!("'{w}'"), 0),
             4 => (format!("\"{w}\""), 0),
